@@ -216,6 +216,7 @@ def write_replay(pid, bucket, spec, detail, origin):
 
 def main_check(pid, tier):
     t_start = time.time()
+    os.environ["VERIF_TIER_EFFECTIVE"] = tier
     check_repo_import()
     mod = load_prop(pid)
     seed = int(os.environ.get("VERIF_SEED", "1"))
